@@ -939,6 +939,8 @@ class Interp:
         if base[0] == "bool" and base[1] == "or" and len(base[2]) == 2:
             # ``(xs or default)[k]``
             return mk_cond(base[2][0], self.get_item(st, base[2][0], key), self.get_item(st, base[2][1], key))
+        if base[0] == "call" and base[1] in ("re.match", "re.search", "re.fullmatch") and is_const(key):
+            return ("call", ".group", (base, key), ())       # m[k] is m.group(k)
         o_ = self.obj(base)
         if isinstance(o_, HList) and is_const(key) and isinstance(key[1], int) and all(sg[0] == "e" for sg in o_.segs) \
                 and not getattr(o_, "dirty", False) and -len(o_.segs) <= key[1] < len(o_.segs):
@@ -1732,6 +1734,8 @@ class Interp:
                 if any(t[0] is None for t in ts):
                     return (None, [])
                 return ast.BoolOp(op=ast.Or(), values=[t[0] for t in ts]), []
+            if isinstance(p, ast.MatchClass) and not p.patterns and not p.kwd_patterns:
+                return ast.Call(func=ast.Name(id="isinstance", ctx=ast.Load()), args=[S(), p.cls], keywords=[]), []
             if isinstance(p, ast.MatchAs):
                 inner = (None, []) if p.pattern is None else test(p.pattern)
                 if inner is None:
@@ -2288,16 +2292,39 @@ class Interp:
         tb: list = []
         fb = st.fork()
         ob = self.exec_block(s.body, fb, tb)
+        if s.orelse and ob.live is not None:
+            # the else part continues the protected block when it raised nothing (its own exceptions are not caught here;
+            # for the effect tree it simply follows the body)
+            o_else = self.exec_block(s.orelse, ob.live, tb)
+            merged = Outcome(live=o_else.live)
+            self._acc(merged, ob)
+            self._acc(merged, o_else)
+            merged.live = o_else.live
+            ob = merged
         handlers = []
         outs = [ob]
         # ``except (A, B) as e: body`` is ``except A as e: body`` followed by ``except B as e: body``
         split = []
         for h in s.handlers:
             if isinstance(h.type, ast.Tuple) and h.type.elts:
-                split.extend((h, t) for t in h.type.elts)
+                split.extend((h, t, None) for t in h.type.elts)
+                continue
+            dyn = None
+            if h.type is not None and not isinstance(h.type, ast.Attribute):
+                act0 = self.stack[-1] if self.stack else None
+                known = act0 is not None and act0.fi is not None and isinstance(h.type, ast.Name) \
+                    and self.facts.annotation_class(act0.fi.module, h.type) is not None
+                if not known:
+                    # the caught types are computed (a variable, a class-level tuple, a choice between tuples)
+                    dyn = self._handler_alternatives(self.ev(st.fork(), h.type, []))
+            if dyn:
+                for guards, cq in dyn:
+                    nm = ast.Name(id=cq.rsplit(".", 1)[1], ctx=ast.Load())
+                    nm._class_q = cq
+                    split.append((h, nm, guards))
             else:
-                split.append((h, h.type))
-        for h, htype in split:
+                split.append((h, h.type, None))
+        for h, htype, hguards in split:
             fh = st.fork()
             # a handler may start from any point of the body: attribute stores of the body are uncertain
             for k2, v2 in (ob.live.ext if ob.live else fb.ext).items():
@@ -2310,11 +2337,16 @@ class Interp:
                 fh.env[h.name] = xv
                 act = self.stack[-1] if self.stack else None
                 if htype is not None and act is not None and act.fi is not None:
-                    ci = self.facts.annotation_class(act.fi.module, htype)
+                    ci = self.facts.cls(htype._class_q) if getattr(htype, "_class_q", None) else self.facts.annotation_class(act.fi.module, htype)
                     if ci is not None:
                         self.types.setdefault(xv, ci)
             th: list = []
             oh = self.exec_block(h.body, fh, th)
+            if hguards:
+                # this class is caught only while the computed tuple contains it; otherwise the exception passes through
+                for c_, p_ in reversed(hguards):
+                    rr = [("raise", ("reraise",), h.lineno)]
+                    th = [("if", c_, th, rr, h.lineno)] if p_ else [("if", c_, rr, th, h.lineno)]
             handlers.append((tname, h.name, th, h.lineno, eid))
             outs.append(oh)
         tree.append(("try", tb, handlers, s.lineno))
@@ -2325,14 +2357,30 @@ class Interp:
             res.ret, res.retc = join_exit(res.ret, None, o.ret, None)
             res.brk, res.brkc = join_exit(res.brk, None, o.brk, None)
             res.cont, res.contc = join_exit(res.cont, None, o.cont, None)
-        if s.orelse and res.live is not None:
-            o2 = self.exec_block(s.orelse, res.live, tree)
-            self._acc(res, o2)
-            res.live = o2.live
         if s.finalbody and res.live is not None:
             o3 = self.exec_block(s.finalbody, res.live, tree)
             res.live = o3.live
         return res
+
+    def _handler_alternatives(self, tv, guards=()):
+        """[(guards, class qualname)] for a computed ``except`` type: a class, a tuple of classes, or a decision between such."""
+        if tv[0] == "class":
+            return [(guards, tv[1])]
+        if tv[0] == "tuple":
+            out = []
+            for x in tv[1]:
+                r = self._handler_alternatives(x, guards)
+                if r is None:
+                    return None
+                out += r
+            return out
+        if tv[0] == "cond":
+            a = self._handler_alternatives(tv[2], guards + ((tv[1], True),))
+            b = self._handler_alternatives(tv[3], guards + ((tv[1], False),))
+            if a is None or b is None:
+                return None
+            return a + b
+        return None
 
     def st_FunctionDef(self, s, st, tree):
         act = self.stack[-1]
